@@ -511,8 +511,8 @@ func main() {
 			r.Add("map_iteration_occurrences_runtime", int64(len(pts)))
 		}
 		step := 1
-		if !r.Thorough() && len(pts) > 600 {
-			step = len(pts)/600 + 1
+		if !r.Thorough() && len(pts) > 1300 {
+			step = len(pts)/1300 + 1
 			r.Cap(fmt.Sprintf("runtime runs: every %d-th map-iteration occurrence in quick", step))
 		}
 		for occ := 0; occ < len(pts); occ += step {
